@@ -271,5 +271,4 @@ def harvest(ctx, rep, f_de, f_sh):
 
 
 def replay(ctx, rp):
-    print("replay case:", rp["first"]["case"])
-    return False
+    return None      # generic replay of harness/main.py (re-executes the check, looks for the recorded signature)
